@@ -97,7 +97,11 @@ func sweep(out *vio.Out, seed int64, n, workers int) {
 			}
 			if !mulp.Inf {
 				var o33 [33]byte
-				ok := secp256k1.Multiply(pc, k32, o33[:])
+				pcIn, kIn := append([]byte(nil), pc...), append([]byte(nil), k32...)
+				ok := secp256k1.Multiply(pcIn, kIn, o33[:])
+				if !bytes.Equal(pcIn, pc) || !bytes.Equal(kIn, k32) {
+					rp.fail(i, "C08:Multiply:operand-changed", "Multiply modified one of its input byte strings", map[string]string{"point": hx(pc), "scalar": hx(k32)})
+				}
 				want := ref.SerializePubKey(mulp, true)
 				sum.add(0, 1, 1)
 				bts := map[string]string{"point": hx(pc), "scalar": hx(k32), "got": hx(o33[:]), "want": hx(want)}
@@ -109,7 +113,11 @@ func sweep(out *vio.Out, seed int64, n, workers int) {
 			}
 			if !addp.Inf {
 				var o33 [33]byte
-				ok := secp256k1.BaseMultiplyAdd(pc, k32, o33[:])
+				pcIn, kIn := append([]byte(nil), pc...), append([]byte(nil), k32...)
+				ok := secp256k1.BaseMultiplyAdd(pcIn, kIn, o33[:])
+				if !bytes.Equal(pcIn, pc) || !bytes.Equal(kIn, k32) {
+					rp.fail(i, "C08:BaseMultiplyAdd:operand-changed", "BaseMultiplyAdd modified one of its input byte strings", map[string]string{"point": hx(pc), "scalar": hx(k32)})
+				}
 				want := ref.SerializePubKey(addp, true)
 				sum.add(0, 1, 1)
 				bts := map[string]string{"point": hx(pc), "scalar": hx(k32), "got": hx(o33[:]), "want": hx(want)}
@@ -137,13 +145,58 @@ func sweep(out *vio.Out, seed int64, n, workers int) {
 				setField(&pj.X, ref.FMul(pt.X, c2))
 				setField(&pj.Y, ref.FMul(pt.Y, ref.FMul(c2, cfac)))
 				setField(&pj.Z, cfac)
-				pj.ECmult(&res, num(na), num(ng))
+				naObj, ngObj := num(na), num(ng)
+				pj0 := pj
+				pj.ECmult(&res, naObj, ngObj)
 				want := ref.BaseMul(ref.ModN(new(big.Int).Add(new(big.Int).Mul(na, a), ng)))
 				got, ok := affineOf(&res)
-				sum.add(0, 1, 1)
+				sum.add(0, 2, 3)
+				eb := map[string]string{"P": hx(pc), "na": na.Text(16), "ng": ng.Text(16), "got": ptHex(got), "want": ptHex(want)}
 				if !ok || res.Infinity != want.Inf || (!want.Inf && !got.Equal(want)) {
-					rp.fail(i, "C08:group:ECmult:point", "XYZ.ECmult(na, ng) is not na*P + ng*G",
-						map[string]string{"P": hx(pc), "na": na.Text(16), "ng": ng.Text(16), "got": ptHex(got), "want": ptHex(want)})
+					rp.fail(i, "C08:group:ECmult:point", "XYZ.ECmult(na, ng) is not na*P + ng*G", eb)
+				} else if naObj.Cmp(na) != 0 || ngObj.Cmp(ng) != 0 {
+					eb["na_after"], eb["ng_after"] = naObj.Text(16), ngObj.Text(16)
+					rp.fail(i, "C08:group:ECmult:operand-changed", "XYZ.ECmult modified one of its scalar operands", eb)
+				} else {
+					// the same scalar objects once more
+					var res2 secp256k1.XYZ
+					pj0.ECmult(&res2, naObj, ngObj)
+					if g2, ok2 := affineOf(&res2); !ok2 || res2.Infinity != want.Inf || (!want.Inf && !g2.Equal(want)) {
+						eb["second_result"] = ptHex(g2)
+						rp.fail(i, "C08:group:ECmult:reuse", "XYZ.ECmult called a second time with the same scalar objects does not return the same point", eb)
+					}
+				}
+				// one tweak object applied to two keys: key + t*G (XY.ECPublicTweakAdd)
+				tw := ref.FromBytes(rnd32(lr))
+				twObj := num(tw)
+				bases := []*big.Int{a, ref.ModN(new(big.Int).Add(a, bi(int64(i)+1)))}
+				if i%16 != 0 {
+					bases = nil // (four reference multiplications per pair: every 16th element only)
+				}
+				for rep, base := range bases {
+					bp := ref.BaseMul(base)
+					wantT := ref.BaseMul(ref.ModN(new(big.Int).Add(base, tw)))
+					if bp.Inf || wantT.Inf {
+						continue
+					}
+					key := xyOf(bp)
+					okT := key.ECPublicTweakAdd(twObj)
+					var u [65]byte
+					key.GetPublicKey(u[:])
+					sum.add(0, 1, 2)
+					tb := map[string]string{"key": ptHex(bp), "tweak": tw.Text(16), "tweak_after": twObj.Text(16), "got": hx(u[:]), "want": ptHex(wantT), "application": fmt.Sprint(rep + 1)}
+					if !okT || !bytes.Equal(u[:], ref.SerializePubKey(wantT, false)) {
+						sig := "C08:group:ECPublicTweakAdd:point"
+						if rep == 1 {
+							sig = "C08:group:ECPublicTweakAdd:reuse"
+						}
+						rp.fail(i, sig, "XY.ECPublicTweakAdd(t) is not key + t*G (application "+fmt.Sprint(rep+1)+" of the same tweak object)", tb)
+						break
+					}
+					if twObj.Cmp(tw) != 0 {
+						rp.fail(i, "C08:group:ECPublicTweakAdd:operand-changed", "XY.ECPublicTweakAdd modified its tweak operand", tb)
+						break
+					}
 				}
 			}
 			k = ref.ModN(new(big.Int).Add(k, delta))
@@ -195,8 +248,12 @@ func helperIdentities(out *vio.Out, sum *Summary, seed int64, n int) {
 	for _, v := range vals {
 		// split_exp: v = r1 + r2*lambda (mod n), both halves short enough for the 129-entry digit arrays of ECmult
 		var r1, r2 secp256k1.Number
-		p := safely(func() { r1, r2 = secp256k1.VerifSplitExp(num(v)) })
-		sum.add(1, 1, 1)
+		vObj := num(v)
+		p := safely(func() { r1, r2 = secp256k1.VerifSplitExp(vObj) })
+		sum.add(1, 1, 2)
+		if vObj.Cmp(v) != 0 {
+			rp.fail(0, "C08:split_exp:operand-changed", "Number.split_exp modified its operand", map[string]string{"a": v.Text(16), "after": vObj.Text(16)})
+		}
 		chk := new(big.Int).Mul(&r2.Int, ref.Lambda)
 		chk.Add(chk, &r1.Int)
 		chk.Sub(chk, v)
@@ -211,8 +268,12 @@ func helperIdentities(out *vio.Out, sum *Summary, seed int64, n int) {
 		for _, x := range []*big.Int{v, &r1.Int, &r2.Int, new(big.Int).Neg(v)} {
 			for _, w := range []uint{secp256k1.WINDOW_A, secp256k1.WINDOW_G, 2, 3} {
 				var ds []int
-				p := safely(func() { ds = secp256k1.VerifWnaf(num(x), w) })
-				sum.add(0, 1, 1)
+				xObj := num(x)
+				p := safely(func() { ds = secp256k1.VerifWnaf(xObj, w) })
+				sum.add(0, 1, 2)
+				if xObj.Cmp(x) != 0 {
+					rp.fail(0, "C08:wnaf:operand-changed", "ecmult_wnaf modified its operand", map[string]string{"a": x.Text(16), "after": xObj.Text(16)})
+				}
 				acc := new(big.Int)
 				okd := true
 				lastNZ := -1000
